@@ -50,6 +50,7 @@ CRATE_FINDERS = {
     "analyze": ("src/app/analyze.rs", "units/analyze/finder_test.rs"),
     "runexec": ("src/app/run.rs", "units/runexec/finder_test.rs"),
     "file": ("src/core/file.rs", "units/file/finder_test.rs"),
+    "lock": ("src/core/server.rs", "units/lock/finder_test.rs"),
 }
 # further finders of a unit (integration tests driving the binary)
 EXTRA_FINDERS = {"log": [("tests/", "units/log/finder_show_test.rs")]}
